@@ -370,3 +370,85 @@ def writer_model_stream(ctx, report, work, data_blobs, decoded):
                     what = (f"page {i}: {names[k]} written {str(e[k])[:80]} but the model of write_column lays down {str(g[k])[:80]}")
                     break
             report.corr_break("wpage.chunk", {**rec, "what": what, "request": req[:600], "sig": "wpage:" + what.split(":")[1][:25] if ":" in what else "wpage:count"})
+
+
+def _phys_list(arr, ptype):
+    """physical rendering of what read_plain returned (unsigned patterns / x-hex bytes), as the driver prints cells"""
+    if ptype == 0:
+        return [int(bool(v)) for v in arr.tolist()]
+    if ptype in (1, 4):
+        return [int(v) for v in np.ascontiguousarray(arr).view("uint32").tolist()]
+    if ptype in (2, 5):
+        return [int(v) for v in np.ascontiguousarray(arr).view("uint64").tolist()]
+    if ptype == 3:
+        raw = np.ascontiguousarray(arr).view("uint8").reshape(-1, 12)
+        return [int.from_bytes(bytes(r), "little") for r in raw]
+    if ptype == 6:
+        return ["x" + (v.encode("utf8") if isinstance(v, str) else bytes(v)).hex() for v in arr.tolist()]
+    raise ValueError(ptype)
+
+
+def reader_model_stream(ctx, report, path, desc):
+    """`rpage.v1` correspondence: the real `core.read_data_page` is run on every v1 data page of every flat column chunk of the
+    dataset at `path`, with the flags `read_col` computes, and must return the levels and values the Lean model
+    `Impl.readDataPage` returns for the same page body.  (The theorems `read_back_written_page*` are about that model.)"""
+    import fastparquet
+    from fastparquet import core, encoding, parquet_thrift as pt
+    from fastparquet.cencoding import ThriftObject
+    pf = fastparquet.ParquetFile(path)
+    reqs, exps, recs = [], [], []
+    for rg in pf.row_groups:
+        fn = pf.row_group_filename(rg)
+        for col in rg.columns:
+            cmd = col.meta_data
+            if len(cmd.path_in_schema) != 1 or cmd.type == 7:
+                continue
+            se = pf.schema.schema_element(cmd.path_in_schema)
+            required = pf.schema.is_required(cmd.path_in_schema)
+            maxdef = pf.schema.max_definition_level(cmd.path_in_schema)
+            with open(fn, "rb") as f:
+                off = min(cmd.dictionary_page_offset or cmd.data_page_offset, cmd.data_page_offset)
+                f.seek(off)
+                buf = f.read(cmd.total_compressed_size)
+            infile = encoding.NumpyIO(np.frombuffer(buf, "uint8"))
+            skip = bool(pf.selfmade and hasattr(cmd, "statistics") and getattr(cmd.statistics, "null_count", 1) == 0)
+            while infile.tell() < len(buf):
+                ph = ThriftObject.from_buffer(infile, "PageHeader")
+                if ph.type != pt.PageType.DATA_PAGE:
+                    infile.seek(ph.compressed_page_size, 1)
+                    continue
+                start = infile.tell()
+                body = bytes(core._read_page(infile, ph, cmd))
+                infile.seek(start)
+                daph = ph.data_page_header
+                try:
+                    defi, _rep, val = core.read_data_page(infile, pf.schema, ph, cmd, skip, selfmade=pf.selfmade)
+                    is_dict = daph.encoding in (pt.Encoding.PLAIN_DICTIONARY, pt.Encoding.RLE_DICTIONARY)
+                    exp = {"defs": -1 if defi is None else [int(x) for x in defi.tolist()],
+                           "kind": "indices" if is_dict else "plain",
+                           "vals": [int(x) for x in np.asarray(val).tolist()] if is_dict else _phys_list(val, cmd.type)}
+                except Exception as e:  # noqa
+                    exp = {"error": type(e).__name__}
+                infile.seek(start + ph.compressed_page_size)
+                reqs.append(f"wpage read required={int(bool(required))} maxdef={maxdef} ptype={cmd.type} tl={se.type_length or 0} enc={daph.encoding} "
+                            f"n={daph.num_values} skip={int(skip)} selfmade={int(bool(pf.selfmade))} body={hexs(body)}")
+                exps.append(exp)
+                recs.append({"check": "reader-model", **desc, "column": cmd.path_in_schema[0], "encoding": daph.encoding, "num_values": daph.num_values,
+                             "skip_nulls": skip})
+    reps = ctx.driver.ask(reqs) if reqs else []
+    for req, exp, rec, rep in zip(reqs, exps, recs, reps):
+        report.stream("rpage.v1")
+        head, dd = parse_reply(rep)
+        if head != "ok":
+            got = {"error": "fault"}
+        else:
+            got = {"defs": parse_list(dd["defs"]), "kind": dd["kind"], "vals": parse_list(dd["vals"])}
+        if "error" in exp and "error" in got:
+            report.count("rpage:both-refuse")
+            continue
+        report.count("rpage:" + ("skip-shortcut" if rec["skip_nulls"] else "levels-read" if exp.get("defs") != -1 else "no-null-page")
+                     + ("/indices" if exp.get("kind") == "indices" else "/plain"))
+        if got != exp:
+            k = next((k for k in ("error", "defs", "kind", "vals") if got.get(k) != exp.get(k)), "?")
+            report.corr_break("rpage.v1", {**rec, "what": f"core.read_data_page returns {k} = {str(exp.get(k))[:100]}, the model of the reader {str(got.get(k))[:100]}",
+                                           "request": req[:400], "sig": "rpage:" + k})
